@@ -6,6 +6,7 @@ import (
 	"bytes"
 	"context"
 	"encoding/json"
+	"errors"
 	"fmt"
 	"net"
 	"net/http"
@@ -89,6 +90,13 @@ func c07Upstream() dnsserver.Handler {
 	return dnsserver.HandlerFunc(func(ctx context.Context, rw dnsserver.ResponseWriter, req *dns.Msg) (err error) {
 		xsched.Yield("upstream: request received")
 		q := req.Question[0]
+		if strings.HasPrefix(strings.ToLower(q.Name), "upfail.") {
+			// The upstream is unreachable for this name: the error paths of the
+			// chain run (and whatever they release is released).
+			xsched.Yield("upstream: failing")
+
+			return errors.New("upstream unreachable")
+		}
 		resp := &dns.Msg{}
 		resp.SetReply(req)
 		resp.RecursionAvailable = true
@@ -351,6 +359,7 @@ var c07Alphabet = []c07Req{
 	{Name: "p1-clean-https-do", Client: "10.1.0.1", Host: "clean.test.", QType: dns.TypeHTTPS, EDNS: true, DO: true},
 	{Name: "p2-custom", Client: "10.2.0.1", Host: "custom-p2.test.", QType: dns.TypeAAAA},
 	{Name: "p1-engine", Client: "10.1.0.1", Host: "engine.test.", QType: dns.TypeA},
+	{Name: "p1-upstream-fails", Client: "10.1.0.1", Host: "upfail.test.", QType: dns.TypeA},
 	{Name: "doh-p1-blocked", Client: "10.4.0.1", Host: "blocked.test.", QType: dns.TypeA, EDNS: true, DoH: true, Path: "/dns-query/dev1"},
 	{Name: "doh-anon-clean", Client: "10.4.0.2", Host: "clean.test.", QType: dns.TypeA, DoH: true, Path: "/dns-query"},
 }
@@ -603,7 +612,7 @@ func c07Explore(r *vrt.Run, rig *c07Rig, golden map[int]string, stopAt *c07Case)
 		}
 	}
 	if r.Thorough() {
-		for _, tr := range [][]int{{0, 1, 2}, {2, 3, 4}, {6, 7, 8}, {1, 5, 9}, {4, 6, 10}, {0, 11, 12}, {7, 11, 12}} {
+		for _, tr := range [][]int{{0, 1, 2}, {2, 3, 4}, {6, 7, 8}, {1, 5, 9}, {4, 6, 10}, {0, 12, 13}, {7, 12, 13}, {8, 11, 12}} {
 			scenarios = append(scenarios, c07Scenario{Reqs: tr})
 		}
 	}
